@@ -52,7 +52,7 @@ Q_THOROUGH = sorted(set(Q_QUICK) | {
     for r in (0, 1, 2, 3, 7, 8, 56, 58, 60, 63)
     for b in [64 * (l - 1) + r if r else 64 * l]
     if b > 0
-} | {(250, 4), (384, 6), (512, 8), (66, 2), (4, 1), (16, 1), (32, 1)})
+} | {(250, 4), (384, 6), (512, 8), (66, 2), (4, 1), (16, 1), (32, 1), (536, 9)})
 
 
 def sysroot():
